@@ -343,8 +343,8 @@ theorem path_absolute_ignores_dir (d1 d2 p : Str) (h : startsWith p ['/'] = true
 
 /-- ... and a relative one is interpreted relative to the project file's directory: its
     normalisation is the normalisation of its own segments continued from the normalised
-    directory.  (The working directory is not an argument of the model at all; that the code
-    has no such dependence is checked by the harness, which re-runs from other directories.) -/
+    directory.  (How the project directory itself follows from the working directory and the
+    path typed on the command line is modelled in `SettingsSource.lean`, theorems of round 6 below.) -/
 theorem path_relative_to_project_dir (dir p : Str) (h : startsWith p ['/'] = false) :
     normPath dir p =
       '/' :: joinSep '/' (normSegs (splitChar '/' p) (normSegs (splitChar '/' dir) []).reverse) := by
@@ -482,23 +482,73 @@ theorem source_is_manifest_next_to_project_file (fs : FileSys) (cwd addr : Str) 
 
 /-- "... whatever the working directory": two starts of FORD that name the same project file - from
     any two working directories, with any relative or absolute spelling of the path - have the same
-    effective configuration (or the same error), whatever manifests lie in the working directories,
-    for every metadata block, `--config` table and command line.  Whole pipeline, regenerated tables. -/
-theorem effective_same_from_every_working_directory (fs : FileSys) (cwd₁ addr₁ cwd₂ addr₂ pkg : Str)
-    (md : List Str) (config : Option Settings) (cli : Settings)
-    (h : projectDirOf cwd₁ addr₁ = projectDirOf cwd₂ addr₂) :
-    effectiveAt generatedTables Generated.tomlLookups fs cwd₁ addr₁ pkg md config cli
-      = effectiveAt generatedTables Generated.tomlLookups fs cwd₂ addr₂ pkg md config cli := by
-  simp only [effectiveAt, source_is_manifest_next_to_project_file, h]
+    effective configuration (or the same error), whatever manifests lie in the working directories and
+    whatever text files are readable, for every metadata block, `--config` table and command line.
+    Whole pipeline, regenerated tables.  `_partial`: outside the class "the options come from a metadata
+    block in which a string option opens with an include statement `{!`" (decidable: `mdIncludes`) - inside
+    it the code as it is does depend on the working directory, see the witness below. -/
+theorem effective_same_from_every_working_directory_partial (fs : FileSys) (files : List (Str × List Str))
+    (incRep : Bool) (cwd₁ addr₁ cwd₂ addr₂ pkg : Str) (md : List Str) (config : Option Settings) (cli : Settings)
+    (h : projectDirOf cwd₁ addr₁ = projectDirOf cwd₂ addr₂)
+    (hinc : mdIncludes generatedTables md = false
+      ∨ ∃ kw, manifestAt fs (projectDirOf cwd₁ addr₁) = .ford kw) :
+    effectiveAt generatedTables Generated.tomlLookups fs cwd₁ addr₁ pkg md config cli files incRep
+      = effectiveAt generatedTables Generated.tomlLookups fs cwd₂ addr₂ pkg md config cli files incRep := by
+  simp only [effectiveAt, source_is_manifest_next_to_project_file, ← h]
+  cases hm : loadToml (manifestAt fs (projectDirOf cwd₁ addr₁)) with
+  | error e => rfl
+  | ok toml =>
+    have henv : toml.isSome = true ∨ mdIncludes generatedTables md = false := by
+      rcases hinc with hinc | ⟨kw, hk⟩
+      · exact Or.inr hinc
+      · rw [hk] at hm
+        simp [loadToml] at hm
+        exact Or.inl (by simp [← hm])
+    simp only [effective_env generatedTables (projectDirOf cwd₁ addr₁) pkg toml md config cli _
+      { cwd := cwd₂, directory := dirname addr₂, files := files, baseFromProject := incRep } henv]
+
+/-- The violating class, on the code as it is (`incRep = false`), whole pipeline over the regenerated tables:
+    `md_base_dir: sub` + `summary: {!inc.md!}` with `<project>/sub/inc.md` on disk gives the file's text when FORD
+    is started in the project directory and the empty string when the same project file is named from the parent
+    directory - the relative `md_base_dir` is read from the working directory, not from the project file.
+    With the repair (`Path(directory) / md_base_dir`, variant `incRep = true`) both starts give the file's text. -/
+theorem include_base_dir_depends_on_cwd_witness :
+    effFieldAt "summary" (effectiveAt generatedTables Generated.tomlLookups [] "/w/proj".toList "p.md".toList
+        "/pkg".toList ["---".toList, "md_base_dir: sub".toList, "summary: {!inc.md!}".toList, "---".toList] none []
+        [("/w/proj/sub/inc.md".toList, ["Included".toList])] false)
+      = some (.atom (.str "Included".toList))
+    ∧ effFieldAt "summary" (effectiveAt generatedTables Generated.tomlLookups [] "/w".toList "proj/p.md".toList
+        "/pkg".toList ["---".toList, "md_base_dir: sub".toList, "summary: {!inc.md!}".toList, "---".toList] none []
+        [("/w/proj/sub/inc.md".toList, ["Included".toList])] false)
+      = some (.atom (.str []))
+    ∧ effFieldAt "summary" (effectiveAt generatedTables Generated.tomlLookups [] "/w".toList "proj/p.md".toList
+        "/pkg".toList ["---".toList, "md_base_dir: sub".toList, "summary: {!inc.md!}".toList, "---".toList] none []
+        [("/w/proj/sub/inc.md".toList, ["Included".toList])] true)
+      = some (.atom (.str "Included".toList)) := by
+  decide +kernel
+
+/-- Outside that class the include workaround is the identity, for every environment: no file is read, and the
+    earlier theorems about the metadata format (stated without it) speak about the whole `load_markdown_settings`. -/
+theorem include_only_where_a_value_opens_with_an_include (env : IncEnv) (kw : Settings)
+    (h : opensInclude kw = false) : includeStep env kw kw = .ok kw :=
+  includeStep_id env kw kw h
+
+/-- The documented shape of an include statement is read as `markdown_include` reads it: text before, file name
+    (blanks around it dropped), text after; a line without `{!` is left alone (non-vacuity of `incParse`). -/
+example : incParse "see {! docs/inc.md !} end".toList = .inc "see ".toList "docs/inc.md".toList " end".toList
+    ∧ incParse "{!inc.md!}".toList = .inc [] "inc.md".toList []
+    ∧ incParse "a { b ! c".toList = .plain ∧ incParse "{!a!}{!b!}".toList = .other
+    ∧ incParse "{! !}".toList = .other := by decide
 
 /-- A manifest in any directory other than the project file's - the working directory, the parent
     directory, an unrelated fpm package - has no influence on the effective configuration: it may
     appear, disappear, change its `[extra.ford]` table or be unreadable. -/
-theorem manifest_elsewhere_is_ignored (fs : FileSys) (d : Str) (m : Manifest) (cwd addr pkg : Str)
+theorem manifest_elsewhere_is_ignored (fs : FileSys) (files : List (Str × List Str)) (incRep : Bool)
+    (d : Str) (m : Manifest) (cwd addr pkg : Str)
     (md : List Str) (config : Option Settings) (cli : Settings)
     (h : projectDirOf cwd addr ≠ d) :
-    effectiveAt generatedTables Generated.tomlLookups (aset d m fs) cwd addr pkg md config cli
-      = effectiveAt generatedTables Generated.tomlLookups fs cwd addr pkg md config cli := by
+    effectiveAt generatedTables Generated.tomlLookups (aset d m fs) cwd addr pkg md config cli files incRep
+      = effectiveAt generatedTables Generated.tomlLookups fs cwd addr pkg md config cli files incRep := by
   simp only [effectiveAt, source_is_manifest_next_to_project_file, manifestAt_aset_ne fs d _ m h]
 
 /-- "written as project-file metadata, as the `[extra.ford]` table of fpm.toml": the manifest next to
@@ -506,21 +556,24 @@ theorem manifest_elsewhere_is_ignored (fs : FileSys) (d : Str) (m : Manifest) (c
     metadata block is not consulted); without the file, without `[extra]` or without `[extra.ford]`
     the metadata block of the project file is.  In both cases relative paths are taken from the
     project file's directory. -/
-theorem source_is_manifest_table_or_metadata (fs : FileSys) (cwd addr pkg : Str)
-    (md : List Str) (config : Option Settings) (cli : Settings) :
+theorem source_is_manifest_table_or_metadata (fs : FileSys) (files : List (Str × List Str)) (incRep : Bool)
+    (cwd addr pkg : Str) (md : List Str) (config : Option Settings) (cli : Settings) :
     (∀ kw, manifestAt fs (projectDirOf cwd addr) = .ford kw →
-      effectiveAt generatedTables Generated.tomlLookups fs cwd addr pkg md config cli
+      effectiveAt generatedTables Generated.tomlLookups fs cwd addr pkg md config cli files incRep
         = (effective generatedTables (projectDirOf cwd addr) pkg (some kw) md config cli).mapError .settings)
     ∧ (manifestAt fs (projectDirOf cwd addr) = .absent ∨ manifestAt fs (projectDirOf cwd addr) = .noExtra
         ∨ manifestAt fs (projectDirOf cwd addr) = .noFord →
-      effectiveAt generatedTables Generated.tomlLookups fs cwd addr pkg md config cli
-        = (effective generatedTables (projectDirOf cwd addr) pkg none md config cli).mapError .settings) := by
+      effectiveAt generatedTables Generated.tomlLookups fs cwd addr pkg md config cli files incRep
+        = (effective generatedTables (projectDirOf cwd addr) pkg none md config cli
+            { cwd := cwd, directory := dirname addr, files := files, baseFromProject := incRep }).mapError .settings) := by
   refine ⟨fun kw hk => ?_, fun hk => ?_⟩
   · simp only [effectiveAt, source_is_manifest_next_to_project_file, hk, loadToml]
+    rw [effective_env generatedTables (projectDirOf cwd addr) pkg (some kw) md config cli _ {} (Or.inl rfl)]
     cases effective generatedTables (projectDirOf cwd addr) pkg (some kw) md config cli <;> rfl
   · rcases hk with hk | hk | hk <;>
       simp only [effectiveAt, source_is_manifest_next_to_project_file, hk, loadToml] <;>
-      cases effective generatedTables (projectDirOf cwd addr) pkg none md config cli <;> rfl
+      cases effective generatedTables (projectDirOf cwd addr) pkg none md config cli
+        { cwd := cwd, directory := dirname addr, files := files, baseFromProject := incRep } <;> rfl
 
 /-- A project file given by an absolute path has the same project directory from every working
     directory (so the two theorems above apply to `ford /abs/doc/ford.md` started anywhere) ... -/
